@@ -237,3 +237,130 @@ Definition guarded (ns : atom) (effects : list atom) (k : skind) (x : xml) : out
       else if has_raw_clause (boundary_of k) && is_rawload e then Raise DaeMalformed
       else Raise e
   end.
+
+(* ======================================================================================
+   Sites that were covered by the fault oracle only (no per-site correspondence is run for the
+   definitions below: they follow the Python text and the classes observed by the fault
+   enumeration; the proofs show that every class they raise is converted by their boundary). *)
+
+Section MoreSites.
+  Variable ns : atom.
+
+  (* ---- Effect._loadShadingParam (material.py).  The <float> branch builds its message with
+     `'...' + id` where `id` is the BUILT-IN function, so a bad token ends in a TypeError raised
+     inside the except clause; a missing text is float(None): TypeError as well.  A <texture>
+     without the texture attribute is `'Missing sampler ' + None`: TypeError; a texture that
+     names no sampler is handled by Effect.load (property dropped / implicit sampler). *)
+  Definition load_shading_param (x : xml) : outcome unit :=
+    match xkids x with
+    | [] => Raise DaeIncomplete
+    | v :: _ =>
+        if is_tag ns a_color v then
+          match value_error_is_malformed (parse_color (xtext v)) with Ok _ => Ok tt | Raise e => Raise e end
+        else if is_tag ns a_float v then
+          match parse_float (xtext v) with
+          | Ok _ => Ok tt
+          | Raise _ => Raise PyTypeError
+          end
+        else if is_tag ns a_texture v then
+          match xattr a_texture v with None => Raise PyTypeError | Some _ => Ok tt end
+        else if is_tag ns a_param v then Ok tt
+        else Raise DaeUnsupported
+    end.
+
+  (* ---- Primitive._getInputs / _getInputsFromList and TriangleSet.load for <triangles>.
+     The scope of a mesh: source ids, and the <vertices> id with the sources its inputs name
+     (None = a <vertices> input whose source does not exist: `'#' + None.id`). *)
+  Inductive sentry := SSource | SVertices (srcs : list (option atom)).
+  Definition pscope := list (atom * sentry).
+  Fixpoint sget (sc : pscope) (a : atom) : option sentry :=
+    match sc with [] => None | (k, v) :: r => if N.eqb k a then Some v else sget r a end.
+
+  (* int(i.get('offset')) for every input, in order: a missing attribute is int(None) - TypeError,
+     raised out of the list comprehension; a non-integer is a ValueError, caught -> DaeMalformed *)
+  Fixpoint parse_offsets (ins : list xml) : outcome (list nat) :=
+    match ins with
+    | [] => Ok []
+    | i :: r =>
+        match xattr a_offset i with
+        | None => Raise PyTypeError
+        | Some (AInt z) => match parse_offsets r with
+                           | Ok l => Ok (Z.to_nat z :: l)
+                           | Raise e => Raise e
+                           end
+        | Some _ => Raise DaeMalformed
+        end
+    end.
+
+  (* the passes of _getInputsFromList over one input *)
+  Definition check_input (sc : pscope) (i : xml) : outcome unit :=
+    match xattr a_source i with
+    | None => Raise PyTypeError                            (* None[1:] *)
+    | Some (ARef true s) =>
+        match sget sc s with
+        | Some (SVertices srcs) =>
+            (* replaced by one entry per <vertices> input: '#' + source.id *)
+            if forallb (fun o => match o with Some _ => true | None => false end) srcs then Ok tt
+            else Raise PyAttributeError
+        | Some SSource =>
+            match xattr a_semantic i with
+            | Some (AStr m) =>
+                if existsb (N.eqb m) [a_VERTEX; a_NORMAL; a_TEXCOORD; a_TEXTANGENT; a_TEXBINORMAL; a_COLOR; a_TANGENT; a_BINORMAL]
+                then Ok tt else Raise DaeUnsupported       (* through handleError *)
+            | _ => Raise DaeUnsupported
+            end
+        | None => Raise DaeBrokenRef
+        end
+    | Some _ => Raise DaeMalformed                         (* no leading '#', or too short *)
+    end.
+
+  Fixpoint check_inputs (sc : pscope) (ins : list xml) : outcome unit :=
+    match ins with
+    | [] => Ok tt
+    | i :: r => andthen (check_input sc i) (check_inputs sc r)
+    end.
+
+  Definition index_count (t : option (list tok)) : outcome nat :=
+    match t with
+    | None | Some [] => Ok O
+    | Some ts => if forallb good_tok ts then Ok (length ts) else Raise DaeMalformed   (* except BaseException *)
+    end.
+
+  Definition load_triangles (sc : pscope) (x : xml) : outcome unit :=
+    match findall ns a_p x with
+    | [] => Raise DaeIncomplete
+    | p :: _ =>
+        let ins := findall ns a_input x in
+        match parse_offsets ins with
+        | Raise e => Raise e
+        | Ok offs =>
+            andthen (check_inputs sc ins)
+              (match offs with
+               | [] => Raise PyValueError                   (* max() of an empty sequence *)
+               | _ =>
+                   match index_count (xtext p) with
+                   | Raise e => Raise e
+                   | Ok n =>
+                       let width := 3 * S (fold_right Nat.max O offs) in
+                       if Nat.eqb (Nat.modulo n width) 0 then Ok tt else Raise DaeMalformed   (* reshape, since e70bc4e *)
+                   end
+               end)
+        end
+    end.
+End MoreSites.
+
+(* their boundaries: shading parameters are loaded inside Effect.load, i.e. the library_effects
+   loop; primitives inside Geometry.load, i.e. the library_geometries loop *)
+Definition guard_in (b : bound) {A} (o : outcome A) : outcome A :=
+  match o with
+  | Ok v => Ok v
+  | Raise e =>
+      if is_dae_gen e then Raise e
+      else if has_raw_clause b && is_rawload e then Raise DaeMalformed
+      else Raise e
+  end.
+
+Definition guarded_shading_param (ns : atom) (x : xml) : outcome unit :=
+  guard_in (BLib LEffects) (load_shading_param ns x).
+Definition guarded_triangles (ns : atom) (sc : pscope) (x : xml) : outcome unit :=
+  guard_in (BLib LGeometry) (load_triangles ns sc x).
